@@ -8,7 +8,8 @@ from vlib import read_jsonl, canon_hash
 THEOREMS = ["C09_tree_consistent", "C09_tree_watch_inverse", "C09_tree_count", "C09_events_at_most_once",
             "C09_stopped_had_poststop", "C09_children_first_partial", "C09_children_first_order_partial",
             "C09_stopped_on_return_partial", "C09_concurrent_stop_refuted", "C09_children_first_repaired",
-            "C09_stopped_on_return_repaired", "C09_spawn_race_refuted"]
+            "C09_stopped_on_return_repaired", "C09_spawn_race_refuted", "C09_all_descendants_stopped_partial",
+            "C09_all_descendants_stopped_repaired", "C09_driver_within_model"]
 
 # ---------------------------------------------------------------------------------------------
 # (S) tree ops
@@ -388,7 +389,7 @@ class StopSim:
         if k == "SpawnCheck":
             p, c = l[1], l[2]
             x = A[c]
-            if x.par is None and x.ph is None and self.is_running(p) and not x.started and c != 0 and c != p:
+            if x.par is None and x.ph is None and self.is_running(p) and not x.started and c != 0 and c != p and self.A[p].ph is None:
                 x.par, x.ph = p, "checked"
                 return True
             return False
